@@ -376,7 +376,7 @@ impl C04 {
         Some(s)
     }
 
-    fn gen_soup(&self, t: &mut Tape) -> String {
+    pub fn gen_soup(&self, t: &mut Tape) -> String {
         let n = 1 + t.choice(60);
         let mut s = String::new();
         for _ in 0..n {
@@ -399,7 +399,7 @@ impl C04 {
         s
     }
 
-    fn gen_statementish(&self, t: &mut Tape) -> String {
+    pub fn gen_statementish(&self, t: &mut Tape) -> String {
         // token soup shaped like statements: far more of it reaches the parser's deeper rules
         let n = 1 + t.choice(6);
         let mut s = String::new();
@@ -419,7 +419,7 @@ impl C04 {
         s
     }
 
-    fn gen_mutation(&self, t: &mut Tape) -> Option<String> {
+    pub fn gen_mutation(&self, t: &mut Tape) -> Option<String> {
         if self.corpus.is_empty() {
             return None;
         }
@@ -462,7 +462,7 @@ impl C04 {
         Some(srcs.join(" "))
     }
 
-    fn gen_edge(&self, t: &mut Tape) -> String {
+    pub fn gen_edge(&self, t: &mut Tape) -> String {
         const INTS: [&str; 12] = [
             "0", "1", "2", "(0 - 1)", "9223372036854775807", "(0 - 9223372036854775807)", "(0 - 9223372036854775807 - 1)",
             "9223372036854775806", "4611686018427387904", "3037000500", "(0 - 3037000500)", "7",
@@ -533,7 +533,7 @@ impl C04 {
         s
     }
 
-    fn gen_nesting(&self, t: &mut Tape, max_depth: usize) -> String {
+    pub fn gen_nesting(&self, t: &mut Tape, max_depth: usize) -> String {
         let d = 1 + t.choice(max_depth);
         let mut open = String::new();
         let mut close = String::new();
